@@ -7,9 +7,13 @@ class C29(C28):
     props_vo = "theories/Props/C29.vo"
     theorems = ["C29_total_order_modelled_ir", "C29_keyed_fold_per_key", "C29_keyed_reduce_per_key",
                 "C29_interleaving_invariant_fold", "C29_interleaving_invariant_reduce",
-                "C29_keyed_tick_partition_modelled_ir", "C29_proj_concat"]
+                "C29_keyed_tick_partition_modelled_ir", "C29_proj_concat",
+                "C29_join_bounded_unordered_side_refuted"]
+    imports = "From HV Require Import Hydro.Model Hydro.ModelTick Hydro.ModelFlows."
     fn = "chk29"
     prop = "C29"
+    theorems_refuted = ["C29_join_bounded_unordered_side_refuted"]
+    KEY = "join/bounded-right-noorder/typed-total-order"
     rule = ("ordered / keyed corpus flows: small inputs under ALL partitions into <= 3 (4) ticks, large inputs "
             "under random partitions; keyed flows additionally: fixed per-key sequences under random cross-key "
             "interleavings (per-key order kept) x random partitions; the executable property is sequence equality "
@@ -17,10 +21,33 @@ class C29(C28):
             "twice (keyed); non-trivial = >= 2 ticks, >= 2 items and some output")
 
     def gen(self, rng, tier, n):
-        fl = self.flows()
+        fl = [f for f in self.flows() if not hydro.FLOWS[f].get("unordered")]
         keyed = [f for f in fl if hydro.FLOWS[f]["kind"] == "keyed"]
-        return (hydro.emit_cases(fl) + hydro.gen_interleave_cases(rng, tier, keyed)
-                + hydro.gen_partition_cases(rng, tier, fl))
+        return (hydro.corpus_cases("C29") + hydro.emit_cases(self.flows()) + hydro.gen_unordered_cases(rng, tier, "t_join_half_unord")
+                + hydro.gen_interleave_cases(rng, tier, keyed) + hydro.gen_partition_cases(rng, tier, fl))
+
+    def to_coq(self, case, res):
+        if hydro.FLOWS[case["flow"]].get("unordered"):
+            if case.get("k") == "syntax":
+                return hydro.emit_term(case["flow"], res, fn="chk_bemit")
+            if hydro.broken(res) or len(res["ticks"]) != len(case["ticks"]):
+                return 3
+            canon = dict(case, ticks=hydro.canonical_ticks(case))
+            return "(chk29_perm %s %s %s %s)" % (case["flow"], hydro.g_ticks(case), hydro.g_ticks(canon),
+                                                 hydro.g_impl(res))
+        return super().to_coq(case, res)
+
+    def finding_key(self, case, res):
+        """known class: join/cross_product whose Bounded right side is NoOrder, a left item with >= 2
+        matches that arrive in a non-canonical order"""
+        if case.get("flow") != "t_join_half_unord" or "ticks" not in case:
+            return None
+        for t in case["ticks"]:
+            b = t.get("b", [])
+            keys_a = {x[0] for x in t.get("a", [])}
+            if b != sorted(b) and any(sum(1 for y in b if y[0] == k) >= 2 for k in keys_a):
+                return self.KEY
+        return None
 
     def extra(self):
         e = super().extra()
